@@ -194,6 +194,10 @@ def make_twin(fn, mode, qualname=None):
     fdef = tree.body[0]
     if not isinstance(fdef, ast.FunctionDef):
         raise Refused("source is not a def")
+    for d in fdef.decorator_list:
+        dn = ast.unparse(d)
+        if dn.split(".")[-1] not in ("staticmethod", "classmethod", "abstractmethod"):
+            raise Refused("decorator %s would be dropped by the twin" % dn)
     qn = qualname or fn.__qualname__
     tx = _Tx(mode, qn, first - 1)
     twin_name = "_vp_twin_%s_%s" % (mode, qn.replace(".", "_").replace("<", "_").replace(">", "_"))
